@@ -14,7 +14,7 @@ RULE = ('genomes of 1..4 chromosomes (size 1..7); leaf arrays from bedGraphs (ev
         'array and Python-scalar operands up to depth 3; sum and histogram of the result.  non-trivial = some leaf has '
         'a record, and the case has two or more chromosomes or an operator')
 EXHAUSTIVE = {'quick': False, 'thorough': False}
-TIE = ('correspondence: from_bedgraph, from_intervals, get_boolean_mask, to_array (xor-accumulate), offsets, per-chromosome '
+TIE = ('translator+correspondence: Gen/C09.v regenerated from /repo (from_bedgraph, from_intervals, to_array, slice bounds, offsets) bridged to the named formulas of Model/C09.v (C09_source_tie); '
        'slicing, get_data, ufunc forwarding, sum, histogram evaluated in Coq on the same records and expression tree')
 ASSUMPTIONS = ['values are finite and small (no overflow / NaN): every value is sent to Coq as an exact dyadic rational m/2^e',
                'float results are compared exactly (values are integers or small dyadic rationals, so dense NumPy and the '
